@@ -626,7 +626,8 @@ func runSched(c caseIn) *caseOut {
 						held = append([]*repos.HTTPDomainMapping{m}, held...)
 						results[i] = append(results[i], []int{0, idNum(m.ID)})
 						for _, o := range r.created {
-							if o.name == m.FullDomain && !r.delStarted[o.id] {
+							// (a create may complete after its own mapping was already deleted by another session of its client: not live)
+							if o.name == m.FullDomain && !r.delStarted[o.id] && !r.delStarted[m.ID] {
 								r.fail("two-live-owners", fmt.Sprintf("create of %q succeeded for client %d (%s) while %s of client %d was never deleted", m.FullDomain, tc.client, m.ID, o.id, o.client))
 							}
 						}
